@@ -25,6 +25,7 @@ type Config struct {
 	XCheck          int
 	Preemptions     int
 	MaxThreads      int
+	UnstableSort    bool
 	NoTimers        bool
 	TimerHorizonNs  int64
 	RaceCheck       bool
@@ -163,6 +164,7 @@ type EntrySpec struct {
 	MaxPaths      int               `json:"max_paths"`
 	Preemptions   int               `json:"preemptions"`
 	MaxThreads    int               `json:"max_threads"`
+	UnstableSort  bool              `json:"unstable_sort"`
 	NoTimers      bool              `json:"no_timers"`
 	TimerHorizonS int               `json:"timer_horizon_s"`
 	Fuel          int               `json:"fuel"`
